@@ -121,6 +121,8 @@ def upulse_term(d) -> str:
 
 
 def qlist(cd: Coder, qs) -> str:
+    if not isinstance(qs, (list, tuple)):
+        qs = [qs]  # a bare qubit id stands for the one-element collection
     return coq_list(coq_Z(cd.q(q)) for q in qs)
 
 
